@@ -147,7 +147,8 @@ def check_case(case: dict):
             from msmart.lan import LAN
             dev = SimDevice(loop, version=3, device_id=case["id"], token=token, key=key, ac=ModelAC())
             replies = [bytes.fromhex(x) for x in case["replies"]]
-            dev.default_action = ("frames", replies, {"cuts": case.get("cuts", [])})
+            # optionally the unit hangs up right behind its answer (FIN / RST, seen by the client's loop after or in the same pass as the answer)
+            dev.default_action = ("frames", replies, {"cuts": case.get("cuts", []), "then": case.get("hangup")})
             net.listen("10.0.0.9", 6444, dev)
             lan = LAN("10.0.0.9", 6444, case["id"])
             try:
@@ -334,6 +335,16 @@ def run(ctx) -> None:
             case = {"kind": "wiretamper", "key": _key(6).hex(), "frame": fr.hex(), "bit": bit}
             ctx.check(case, lambda c: _run_one(ctx, c))
     ctx.sweep("single-bit flips of a response on a live connection (LAN.send)", w, not ctx.quick)
+    # a response on a live connection whose sender hangs up right behind it: every padding residue x how the hang-up is seen
+    h = 0
+    for L in range(0, 36):
+        for hangup in ("fin", "rst", "fin_same", "rst_same"):
+            h += 1
+            if ctx.mine(h):
+                case = {"kind": "wire", "key": _key(7).hex(), "id": 7 + L, "frame": _payload(L + 11, 3).hex(), "replies": [_payload(L, 4).hex()] + ([_payload(L + 5, 6).hex()] if L % 3 == 0 else []),
+                        "cuts": [] if L % 2 else [9 + L], "hangup": hangup}
+                ctx.check(case, lambda c: _run_one(ctx, c))
+    ctx.sweep("response followed by the sender's hang-up x payload length 0..35 x {FIN,RST} x {after, same pass}", h, True)
 
     hexb = lambda s: s.map(lambda b: b.hex())
     codec_cases = st.fixed_dictionaries({
@@ -346,7 +357,8 @@ def run(ctx) -> None:
     wire_cases = st.fixed_dictionaries({
         "kind": st.just("wire"), "key": hexb(gens.keys32()), "id": gens.device_ids(64),
         "frame": hexb(gens.frames_bytes(255)), "replies": st.lists(hexb(gens.frames_bytes(100)), min_size=1, max_size=3),
-        "cuts": gens.cut_sets(300, 5), "warm": st.sampled_from([0, 0, 254, 4094]), "edge": st.sampled_from([False, False, True])})
+        "cuts": gens.cut_sets(300, 5), "warm": st.sampled_from([0, 0, 254, 4094]), "edge": st.sampled_from([False, False, True])},
+        optional={"hangup": st.sampled_from(["fin", "rst", "fin_same", "rst_same"])})
     tamper_cases = st.fixed_dictionaries({
         "kind": st.just("tamper"), "key": hexb(gens.keys32()), "frame": hexb(gens.frames_bytes(80)),
         "counter": st.integers(0, 4095), "bit": st.integers(0, 8 * 250), "inner": st.sampled_from(["v2", "raw"])})
